@@ -1,18 +1,22 @@
 """C18 -- agent messaging delivers each message once, by priority, FIFO per sender."""
 import logging
+import random
 import queue as _queue
 import sys
 import threading
+from time import monotonic as _monotonic, sleep
 
 from harness import coqio as q
 
 ID = "C18"
-COQ_REQUIRE = ["M_Messaging"]
-COQ_CASE_TYPE = "M_Messaging.case"
-COQ_CHECK = "M_Messaging.check_case"
+COQ_REQUIRE = ["M_Messaging", "M_MessagingMT"]
+COQ_CASE_TYPE = "M_MessagingMT.case"
+COQ_CHECK = "M_MessagingMT.check_case"
 OBLIGATIONS = ["delivered_exactly_once", "queue_sorted_by_priority", "next_takes_least",
                "fifo_per_destination_and_type", "late_registration_in_order",
-               "shutdown_drains", "threads_queue_discipline", "counter_race_possible"]
+               "shutdown_drains", "threads_queue_discipline", "counter_race_possible",
+               "mt_delivered_exactly_once", "mt_priority", "mt_fifo_per_sender_type",
+               "mt_fifo_unlocked_refuted", "mt_shutdown_drains", "mt_shutdown_oldloop_refuted"]
 N_QUICK, N_THOROUGH = 330, 5000
 SHARD = 120
 RULE = ("sequential: seeded histories (0-45 ops) of Post / Register (local or remote agent) / Unregister / "
@@ -21,15 +25,28 @@ RULE = ("sequential: seeded histories (0-45 ops) of Post / Register (local or re
         "InProcessCommunicationLayer with a second real agent as the remote side, driven without threads; "
         "threaded (1 case in 11): a real agent thread, 2-4 poster threads under a random switch interval, a "
         "late registration and a clean shutdown, the PriorityQueue operations logged under the queue's own "
-        "lock; non-trivial = at least 3 messages handled or a deferred message replayed; distinct = "
+        "lock; micro-step (1 case in 11): 2-3 poster threads (2-9 posts each, local registered destinations), the "
+        "real agent thread and clean_shutdown (30% called while the posters are half way: posts dropped or left "
+        "queued) under a random switch interval, every shared access of post_msg / the agent loop / "
+        "clean_shutdown (read _shutdown, clock, lock acquire/release, counter load/store/re-read, put, shutdown "
+        "event read, get or Empty, event set, _shutdown set) logged in one total order by wrappers living in "
+        "the driver process only; 2 in 5 of these force an interleaving: thread 0 held between the load and the "
+        "store of the counter while thread 1 posts, or a post + clean_shutdown placed right after an Empty get "
+        "of the loop; non-trivial = at least 3 messages handled or a deferred message replayed; distinct = "
         "distinct case JSON")
 MODELLED = ("Messaging.post_msg/next_msg/shutdown/_on_computation_registration, the discovery table and "
             "one-shot callbacks, the agent loop's dispatch and drain are modelled sequentially "
             "(M_Messaging.v) and compared op by op (outcomes, queue, _failed, handled, send_msg calls, "
             "remote agent's handled order). Theorems hold for all sequential histories. Real threads: only "
             "the queue discipline is modelled (put/get events as the queue's lock serialised them); "
-            "post_msg is atomic in the sequential model; the non-atomic counter increment is shown to allow "
-            "equal counters in a micro-step model (counter_race_possible), not excluded for the real code.")
+            "post_msg is atomic in the sequential model. Thread interleavings (M_MessagingMT.v): post_msg's local "
+            "branch, the agent loop and clean_shutdown as micro-steps over shared memory; exactly-once, priority, "
+            "FIFO per sender and type (with the post lock) and shutdown-drains (with the repaired loop) are "
+            "theorems for every number of threads, program and interleaving; both are refuted by a witness for "
+            "the code before the repairs. The logged real runs are replayed step by step through that model "
+            "(counters drawn, queue tuples, handler trace, dropped posts must coincide). Not in the micro-step "
+            "model: deferred posts / registration racing with posts, remote destinations, perf_counter ties "
+            "leading to a comparison of the messages themselves (flagged, never seen).")
 META = dict(
     level_text=("Proof (Coq) over all sequential histories of posts, registrations, un-registrations, pops, "
                 "shutdown and drain of a model of Messaging + the discovery data it uses + the agent loop: "
@@ -38,13 +55,24 @@ META = dict(
                 "handled messages of one type appear in counter order; if no call raised, messages for one "
                 "destination and type are handled in posting order, including messages deferred until the "
                 "destination registers; after a clean shutdown the loop handles every queued message and "
-                "nothing is added. Thread interleavings are not quantified over by a theorem: the real "
-                "threaded runs are checked against the queue model on the serialised put/get log and by the "
-                "property oracle. The model is tied to communication.py / agents.py / discovery.py by a "
-                "differential run on every check."),
-    level_note=("Trusted: Coq kernel/vm_compute, the hand-written model M_Messaging.v, the harness driver "
-                "(including the instrumented PriorityQueue subclass used in the threaded run), CPython's "
-                "PriorityQueue tuple ordering. Not modelled: perf_counter tie-break, unknown agent address "
+                "nothing is added. Thread interleavings: a second, micro-step model (one step per shared-memory "
+                "access of post_msg's local branch, of the agent loop and of clean_shutdown, plus the clock) with "
+                "theorems for every number of poster threads, every program and EVERY interleaving: each post is "
+                "put at most once and handled at most once, exactly once or dropped-after-shutdown at quiescence; "
+                "a get never returns an entry while a lower one put earlier is queued; with the post lock the "
+                "messages of one thread and type are handled in posting order; with the repaired loop everything "
+                "put before clean_shutdown is handled before the agent thread stops. The same statements are "
+                "refuted by witness interleavings for the code before the two repairs (both reproduced on the "
+                "real code by a forced schedule). Registration racing with a deferring post is not covered by a "
+                "theorem. The models are tied to communication.py / agents.py / discovery.py by a "
+                "differential run on every check (sequential histories op by op; real threads by replaying the "
+                "logged micro-steps through the interleaving model)."),
+    level_note=("Trusted: Coq kernel/vm_compute, the hand-written models M_Messaging.v / M_MessagingMT.v (in "
+                "particular the granularity of the micro-steps: attribute reads/writes, PriorityQueue.put/get, "
+                "Lock and Event operations are atomic), the harness driver (including the logging wrappers of the "
+                "threaded runs: property wrappers for msg_queue_count/_shutdown, queue/lock/event subclasses), "
+                "CPython's PriorityQueue tuple ordering. Not modelled: a full (type, counter, time) tie (the heap "
+                "then compares the messages), unknown agent address "
                 "(messages silently lost by _on_send_error), HTTP transport, message delay."),
     technique="Coq proof over executable Gallina model + differential correspondence run + perturbed real-thread run",
     design_ref="DESIGN.md §5 C18",
@@ -111,10 +139,37 @@ def _gen_thr(rng):
                 start_agent_first=rng.random() < 0.6, yields=rng.random() < 0.5)
 
 
+def _gen_mt(rng):
+    force = rng.choice([None, None, None, "counter", "shutdown"])
+    nthreads = rng.randint(2, 3)
+    progs = []
+    mid = 0
+    for t in range(nthreads):
+        prog = []
+        for _ in range(rng.randint(2, 9)):
+            mid += 1
+            prog.append([rng.choice([10, 11]), mid, rng.choice([None, None, 20, 10, 15, 25])])
+        progs.append(prog)
+    if force == "counter":
+        # two threads: thread 0 sits between the load and the store of its only
+        # `msg_queue_count += 1` while thread 1 posts 3 of its >= 4 messages (one type, one
+        # destination); unlocked, thread 1's 4th post then draws a counter below its 3rd
+        ty = rng.choice([None, 10])
+        progs = [progs[0][:1], []]
+        for _ in range(rng.randint(4, 6)):
+            mid += 1
+            progs[1].append([10, mid, ty])
+    early = force is None and rng.random() < 0.3
+    return dict(kind="mt", progs=progs, switch=rng.choice([1e-6, 1e-5, 1e-4, 5e-3]), force=force,
+                yield_p=rng.choice([0, 0.1, 0.3, 0.6]), yseed=rng.randrange(10 ** 6),
+                early_shutdown=early, start_agent_first=(force == "shutdown") or (force is None and rng.random() < 0.6))
+
+
+
 def gen(rng, n, tier):
     cases = []
     for i in range(n):
-        cases.append(_gen_thr(rng) if i % 11 == 10 else _gen_seq(rng))
+        cases.append(_gen_thr(rng) if i % 11 == 10 else _gen_mt(rng) if i % 11 == 5 else _gen_seq(rng))
     return cases
 
 
@@ -314,7 +369,275 @@ def _run_thr(case):
                 left=ms._queue.qsize(), failed=len(ms._failed), alive=any(t.is_alive() for t in threads))
 
 
+# ---- micro-step logged threads (M_MessagingMT)
+class _MTLog:
+    """One totally ordered log of the micro-steps; every instrumented access performs its effect
+    and appends its record while holding [lock]."""
+
+    def __init__(self):
+        self.lock = threading.Lock()
+        self.events = []
+        self.tids = {}            # threading.get_ident() -> poster index
+
+    def tid(self):
+        return self.tids.get(threading.get_ident())
+
+
+def _instrument(a, log, case, gate):
+    """Wraps the shared accesses of a's Messaging / agent loop.  Returns an undo function."""
+    import pydcop.infrastructure.communication as comm
+    ms = a._messaging
+    nreads = {}
+    prng = random.Random(case.get("yseed", 0))
+    yp = case.get("yield_p", 0)
+
+    def perturb():
+        # hand the interpreter to another thread right after a shared access (driver-side
+        # perturbation; which thread runs next is still the scheduler's choice)
+        if yp and log.tid() is not None and prng.random() < yp:
+            sleep(prng.choice([0, 0, 1e-5, 1e-4]))
+
+    class _InstrMessaging(comm.Messaging):
+        @property
+        def msg_queue_count(self):
+            t = log.tid()
+            with log.lock:
+                v = self.__dict__["msg_queue_count"]
+                if t is not None:
+                    log.events.append(("R", t, v))
+            if t is not None:
+                nreads[t] = nreads.get(t, 0) + 1
+                if case["force"] == "counter" and t == 0 and nreads[t] == 1:
+                    gate[2].set()
+                    gate[0].wait(0.3)     # between the load and the store of `+= 1`
+            perturb()
+            return v
+
+        @msg_queue_count.setter
+        def msg_queue_count(self, v):
+            t = log.tid()
+            with log.lock:
+                self.__dict__["msg_queue_count"] = v
+                if t is not None:
+                    log.events.append(("W", t, v))
+            if t == 0:
+                gate[1].set()
+            perturb()
+
+        @property
+        def _shutdown(self):
+            t = log.tid()
+            with log.lock:
+                v = self.__dict__["_shutdown"]
+                if t is not None:
+                    log.events.append(("S", t, v))
+            perturb()
+            return v
+
+        @_shutdown.setter
+        def _shutdown(self, v):
+            with log.lock:
+                self.__dict__["_shutdown"] = v
+                log.events.append(("SetShut",))
+
+    class _Q(_queue.PriorityQueue):
+        def _put(self, item):                    # called with the queue's mutex held
+            with log.lock:
+                super()._put(item)
+                log.events.append(("put", log.tid(), item))
+
+        def get(self, block=True, timeout=None):
+            # queue.Queue.get with the Empty outcome logged under the mutex
+            with self.not_empty:
+                if not block:
+                    if not self._qsize():
+                        with log.lock:
+                            log.events.append(("empty",))
+                        raise _queue.Empty
+                elif timeout is None:
+                    while not self._qsize():
+                        self.not_empty.wait()
+                else:
+                    endtime = _monotonic() + timeout
+                    while not self._qsize():
+                        remaining = endtime - _monotonic()
+                        if remaining <= 0.0:
+                            with log.lock:
+                                log.events.append(("empty",))
+                            raise _queue.Empty
+                        self.not_empty.wait(remaining)
+                with log.lock:
+                    item = self._get()
+                    log.events.append(("get", item))
+                self.not_full.notify()
+                return item
+
+    class _Lock:
+        def __init__(self, real):
+            self.real = real
+
+        def __enter__(self):
+            self.real.acquire()
+            with log.lock:
+                log.events.append(("ACQ", log.tid()))
+            perturb()
+
+        def __exit__(self, *exc):
+            with log.lock:
+                log.events.append(("REL", log.tid()))
+            self.real.release()
+            perturb()
+
+    class _Evt(threading.Event):
+        def is_set(self):
+            with log.lock:
+                v = super().is_set()
+                log.events.append(("F", v))
+            return v
+
+        def set(self):
+            with log.lock:
+                super().set()
+                log.events.append(("SetEvt",))
+
+    real_clock = comm.perf_counter
+
+    def clock():
+        t = log.tid()
+        with log.lock:
+            v = real_clock()
+            if t is not None:
+                log.events.append(("T", t, v))
+        return v
+
+    ms.__class__ = _InstrMessaging
+    ms._queue = _Q()
+    locked = hasattr(ms, "_post_lock")
+    if locked:
+        ms._post_lock = _Lock(ms._post_lock)
+    a._shutdown = _Evt()
+    comm.perf_counter = clock
+
+    def undo():
+        comm.perf_counter = real_clock
+    return locked, undo
+
+
+def _run_mt(case):
+    from pydcop.infrastructure.computations import Message
+    a, b, Rec, trace = _setup(senders=False)
+    for c in (10, 11):
+        comp = Rec(_name(c), 1)
+        comp.start()
+        a.add_computation(comp, publish=False)
+    ms = a._messaging
+    log = _MTLog()
+    gate = (threading.Event(), threading.Event(), threading.Event())
+    locked, undo = _instrument(a, log, case, gate)
+    old_switch = sys.getswitchinterval()
+    sys.setswitchinterval(case["switch"])
+    errors = []
+    progs = [list(p) for p in case["progs"]]
+    try:
+        nthreads = len(progs)
+        half = threading.Barrier(nthreads + 1)
+        go = threading.Barrier(nthreads)
+
+        def poster(tid, prog):
+            log.tids[threading.get_ident()] = tid
+            try:
+                if tid < nthreads:
+                    go.wait(30)                    # the posters start together
+                if case["force"] == "counter" and tid == 1:
+                    gate[2].wait(0.3)              # thread 0 has loaded the counter
+                for j, (dest, mid, ty) in enumerate(prog):
+                    if case["early_shutdown"] and j == len(prog) // 2:
+                        half.wait(30)
+                    ms.post_msg(_name(40 + tid), _name(dest), Message("m", mid), ty)
+                    if case["force"] == "counter" and tid == 1 and j == 2:
+                        gate[0].set()           # thread 0 may store now ...
+                        gate[1].wait(0.3)       # ... and this thread goes on after that store
+            except Exception as e:                 # noqa: BLE001
+                errors.append("%s: %s" % (type(e).__name__, e))
+
+        threads = [threading.Thread(target=poster, args=(t, p), daemon=True) for t, p in enumerate(progs)]
+        if case["force"] == "shutdown":
+            # between an Empty result of the agent loop's get and whatever the loop does next:
+            # one more thread completes a post, then clean_shutdown is called
+            extra = [10, 10 ** 6, None]
+            progs.append([extra])
+            armed = threading.Event()
+            real_next = ms.next_msg
+            fired = []
+
+            def next_msg(timeout=0):
+                r = real_next(timeout)
+                if r[0] is None and armed.is_set() and not fired:
+                    fired.append(1)
+                    t = threading.Thread(target=poster, args=(nthreads, [extra]), daemon=True)
+                    t.start()
+                    t.join(30)
+                    t = threading.Thread(target=a.clean_shutdown, daemon=True)
+                    t.start()
+                    t.join(30)
+                return r
+            ms.next_msg = next_msg
+        if case["start_agent_first"]:
+            a.start()
+        for t in threads:
+            t.start()
+        if case["early_shutdown"]:
+            half.wait(30)
+            a.clean_shutdown()
+        for t in threads:
+            t.join(30)
+        if not case["start_agent_first"]:
+            a.start()
+        if case["force"] == "shutdown":
+            armed.set()
+        elif not case["early_shutdown"]:
+            a.clean_shutdown()
+        a.join()
+    finally:
+        sys.setswitchinterval(old_switch)
+        undo()
+    # ---- the log as JSON
+    clocks = sorted({e[2] for e in log.events if e[0] == "T"})
+    rank = {v: i + 1 for i, v in enumerate(clocks)}
+    evs = []
+    for e in log.events:
+        k = e[0]
+        if k == "T":
+            evs.append(["T", e[1], rank[e[2]]])
+        elif k in ("R", "W"):
+            evs.append([k, e[1], e[2]])
+        elif k == "S":
+            evs.append(["S", e[1], bool(e[2])])
+        elif k == "put":
+            item = e[2]
+            fm = item[3]
+            evs.append(["put", e[1], item[0], item[1], rank.get(item[2], 0), _cid(fm.src_comp), _cid(fm.dest_comp),
+                        fm.msg.content])
+        elif k == "get":
+            item = e[1]
+            fm = item[3]
+            evs.append(["get", item[0], item[1], rank.get(item[2], 0), _cid(fm.src_comp), _cid(fm.dest_comp),
+                        fm.msg.content])
+        elif k == "F":
+            evs.append(["F", bool(e[1])])
+        elif k in ("ACQ", "REL"):
+            evs.append([k, e[1]])
+        else:
+            evs.append([k])
+    return dict(events=evs, progs=progs, locked=locked, handled=trace[1], errors=errors,
+                left=ms._queue.qsize(), cnt=ms.__dict__["msg_queue_count"], done=not a.is_running,
+                alive=any(t.is_alive() for t in threads))
+
+
+
 def run_impl(case):
+    if case["kind"] == "mt":
+        return _run_mt(case)
     return _run_seq(case) if case["kind"] == "seq" else _run_thr(case)
 
 
@@ -465,7 +788,83 @@ def _oracle_thr(case, o):
     return None
 
 
+# ---- oracle: the property on the log, without the model
+def _oracle_mt(case, o):
+    if o["errors"] or o["alive"]:
+        return "threads: %r alive=%r" % (o["errors"], o["alive"])
+    progs = o["progs"]
+    seq = [0] * len(progs)
+    put_of, dropped, order = {}, set(), []
+    present, handled_keys = [], []
+    shutdown_at = None
+    puts_before_shutdown = set()
+    last_cnt = None
+    for n, e in enumerate(o["events"]):
+        k = e[0]
+        if k == "S" and e[2]:
+            dropped.add((e[1], seq[e[1]]))
+            seq[e[1]] += 1
+        elif k == "put":
+            tid = e[1]
+            if tid is None or seq[tid] >= len(progs[tid]):
+                return "once: a put that is no post of the programs: %r" % (e,)
+            dest, mid, ty = progs[tid][seq[tid]]
+            if (e[2], e[5], e[6], e[7]) != (_ty(ty), 40 + tid, dest, mid):
+                return "put %r is not post %d of thread %d %r" % (e, seq[tid], tid, progs[tid][seq[tid]])
+            put_of[(tid, seq[tid])] = (e[2], e[3], e[4])
+            if shutdown_at is None:
+                puts_before_shutdown.add(mid)
+            if o["locked"] and last_cnt is not None and e[3] <= last_cnt:
+                return "counter: put drew %d after %d" % (e[3], last_cnt)
+            last_cnt = e[3]
+            seq[tid] += 1
+            present.append((e[2], e[3], e[4], mid))
+        elif k == "get":
+            key = (e[1], e[2], e[3], e[6])
+            if key not in present:
+                return "once: get returned %r which is not queued" % (key,)
+            if key[:3] != min(present)[:3]:
+                return "priority: get returned %r while %r was queued" % (key, min(present))
+            present.remove(key)
+            handled_keys.append(e[6])
+        elif k == "SetEvt" and shutdown_at is None:
+            shutdown_at = n
+    for tid, prog in enumerate(progs):
+        for j in range(len(prog)):
+            if ((tid, j) in put_of) == ((tid, j) in dropped):
+                return "once: post %d of thread %d was put %s and dropped %s" % (
+                    j, tid, (tid, j) in put_of, (tid, j) in dropped)
+    if dropped and shutdown_at is None:
+        return "posts dropped without a shutdown"
+    hs = [m for _, _, m in o["handled"]]
+    if hs != handled_keys:
+        return "handlers saw %r, the loop got %r" % (hs, handled_keys)
+    if len(set(hs)) != len(hs):
+        return "once: a message was handled twice: %r" % hs
+    ident = {prog[j][1]: (tid, j, prog[j][0], _ty(prog[j][2])) for tid, prog in enumerate(progs) for j in range(len(prog))}
+    for s, d, m in o["handled"]:
+        if (s, d) != (40 + ident[m][0], ident[m][2]):
+            return "message %d handed to %r from %r" % (m, d, s)
+    last = {}
+    for m in hs:
+        tid, j, _, ty = ident[m]
+        if (tid, ty) in last and last[(tid, ty)] > j:
+            return "fifo: sender %d type %d: its post %d handled after its post %d" % (tid, ty, j, last[(tid, ty)])
+        last[(tid, ty)] = j
+    if not o["done"]:
+        return "shutdown: the agent thread did not stop"
+    missing = sorted(puts_before_shutdown - set(hs))
+    if missing:
+        return "shutdown: messages %r queued before clean_shutdown were never handled" % missing
+    if not dropped and not case["early_shutdown"] and (o["left"] or len(hs) != sum(len(p) for p in progs)):
+        return "shutdown: %d handled of %d, %d left" % (len(hs), sum(len(p) for p in progs), o["left"])
+    return None
+
+
+
 def oracle(case, o):
+    if case["kind"] == "mt":
+        return _oracle_mt(case, o)
     return _oracle_seq(case, o) if case["kind"] == "seq" else _oracle_thr(case, o)
 
 
@@ -498,6 +897,12 @@ _OUT = {"dropped": "ODropped", "deferred": "ODeferred", "queued": "OQueued", "se
 
 
 def coq_case(case, o):
+    if case["kind"] == "mt":
+        return _coq_mt(case, o)
+    return "COld (%s)" % _coq_old(case, o)
+
+
+def _coq_old(case, o):
     if case["kind"] == "thr":
         evs = q.lst(["QPut %s" % _qent(e[1:]) if e[0] == "put" else "QGet" for e in o["events"]])
         handled = q.lst(["(%s, %s, %s)" % (q.z(s), q.z(d), q.z(m)) for s, d, m in o["handled"]])
@@ -521,7 +926,53 @@ def coq_case(case, o):
         q.lst([q.pair(q.z(B), q.pair(btable, zzz(o["remote"])))]))
 
 
+# ---- Gallina
+def _coq_mt(case, o):
+    progs = o["progs"]
+    sched = []
+    clock = 0
+    nctl = 0
+    for e in o["events"]:
+        k = e[0]
+        if k == "T":
+            while clock < e[2]:
+                sched.append("CTick")
+                clock += 1
+            sched.append("CPost %s" % q.nat(e[1]))
+        elif k in ("S", "R", "W", "ACQ", "REL", "put"):
+            if e[1] is None:
+                return None
+            sched.append("CPost %s" % q.nat(e[1]))
+        elif k in ("F", "get", "empty"):
+            sched.append("CAgent")
+        elif k in ("SetEvt", "SetShut"):
+            sched.append("CCtl")
+            nctl += 1
+    ctl = []
+    for e in o["events"]:
+        if e[0] in ("SetEvt", "SetShut"):
+            ctl.append(e[0])
+    seq = [0] * len(progs)
+    puts, dropped = [], []
+    for e in o["events"]:
+        if e[0] == "S" and e[2]:
+            dropped.append(q.pair(q.nat(e[1]), q.nat(seq[e[1]])))
+            seq[e[1]] += 1
+        elif e[0] == "put":
+            tid = e[1]
+            puts.append("(mkE %s %s %s %s %s %s %s)" % (q.z(e[2]), q.z(e[3]), q.z(e[4]), q.nat(tid),
+                                                       q.nat(seq[tid]), q.z(e[6]), q.z(e[7])))
+            seq[tid] += 1
+    handled = q.lst(["(%s, %s, %s)" % (q.nat(s - 40), q.z(d), q.z(m)) for s, d, m in o["handled"]])
+    gprogs = q.lst([q.lst(["(mkPost %s %s %s)" % (q.z(d), q.z(_ty(ty)), q.z(m)) for d, m, ty in p]) for p in progs])
+    return "CMT (mkMT (mkCfg true true) %s %s %s %s %s %s %s %s %s)" % (
+        gprogs, q.lst(ctl), q.lst(sched), q.lst(puts), handled, q.lst(dropped), q.z(o["cnt"]),
+        q.nat(o["left"]), q.b(o["done"]))
+
+
 def nontrivial(case, o):
+    if case["kind"] == "mt":
+        return len(o.get("handled", [])) >= 3 and len(o.get("events", [])) >= 30
     if case["kind"] == "thr":
         return len(o.get("handled", [])) >= 3
     return len(o.get("handled", [])) >= 3 or ("deferred" in o.get("outcomes", []) and len(o.get("handled", [])) >= 1)
@@ -529,11 +980,38 @@ def nontrivial(case, o):
 
 def histogram(cases, obs):
     h = {"seq": 0, "thr": 0, "deferred": 0, "replayed_local": 0, "sent_remote": 0, "raised": 0,
-         "shutdown": 0, "dropped": 0, "handled>=5": 0, "thr_gets_interleaved": 0}
+         "shutdown": 0, "dropped": 0, "handled>=5": 0, "thr_gets_interleaved": 0,
+         "mt": 0, "mt_forced_counter": 0, "mt_forced_shutdown": 0, "mt_early_shutdown": 0, "mt_posts_dropped": 0,
+         "mt_left_in_queue": 0, "mt_switch_inside_post": 0, "mt_lock_contended": 0}
     for c, o in zip(cases, obs):
         if not isinstance(o, dict) or "__driver_error__" in o:
             continue
         h[c["kind"]] += 1
+        if c["kind"] == "mt":
+            h["mt_forced_counter"] += c["force"] == "counter"
+            h["mt_forced_shutdown"] += c["force"] == "shutdown"
+            h["mt_early_shutdown"] += bool(c["early_shutdown"])
+            h["mt_posts_dropped"] += any(e[0] == "S" and e[2] for e in o["events"])
+            h["mt_left_in_queue"] += o["left"] > 0
+            inside, switched, contended, holder = set(), False, False, None
+            for e in o["events"]:
+                if e[0] in ("S", "T", "ACQ", "R", "W", "put", "REL"):
+                    if inside - {e[1]}:
+                        switched = True
+                    if e[0] == "S" and not e[2]:
+                        inside.add(e[1])
+                    if e[0] == "T" and holder is not None and holder != e[1]:
+                        contended = True
+                    if e[0] == "ACQ":
+                        holder = e[1]
+                    if e[0] == "REL":
+                        holder = None
+                        inside.discard(e[1])
+                    if e[0] == "put" and not o["locked"]:
+                        inside.discard(e[1])
+            h["mt_switch_inside_post"] += switched
+            h["mt_lock_contended"] += contended
+            continue
         if c["kind"] == "thr":
             kinds = [e[0] for e in o["events"]]
             first_get = kinds.index("get") if "get" in kinds else len(kinds)
@@ -558,8 +1036,11 @@ def shrink_candidates(case):
         for i in range(len(ops)):
             yield dict(kind="seq", ops=ops[:i] + ops[i + 1:])
     else:
+        minlen = 4 if case.get("force") == "counter" else 1 if case["kind"] == "mt" else 2
         for t in range(len(case["progs"])):
-            if len(case["progs"][t]) > 2:
+            if case.get("force") == "counter" and t == 0:
+                continue
+            if len(case["progs"][t]) > minlen:
                 p = [list(x) for x in case["progs"]]
                 p[t] = p[t][:-1]
                 d = dict(case)
